@@ -99,8 +99,9 @@ def build_errors(log):
 
 
 def audit_axioms(module, theorems):
-  """#print axioms for each theorem; returns {theorem: [axioms]} or raises on tool failure."""
-  src = 'import %s\n' % module + ''.join('#print axioms %s\n' % t for t in theorems)
+  """#print axioms for each theorem (visible from `module`, a name or a list of names); returns {theorem: [axioms]} or raises on tool failure."""
+  mods = [module] if isinstance(module, str) else list(module)      # several modules: one Lean process for all of them
+  src = ''.join('import %s\n' % m for m in mods) + ''.join('#print axioms %s\n' % t for t in theorems)
   path = os.path.join(LEAN, '.audit_%d.lean' % os.getpid())
   open(path, 'w').write(src)
   try:
